@@ -27,6 +27,8 @@ func init() {
 		Run:      runC18,
 		Thorough: thoroughC18,
 		Mutants: []Mutant{
+			{Name: "pool-config-forgotten-on-rejected-snapshot", File: "internal/k8s/controllers/pool_controller.go",
+				Old: "\tif err != nil {\n\t\tconfigStale.Set(1)\n", New: "\tif err != nil {\n\t\tconfigStale.Set(1)\n\t\tr.currentConfig = nil\n", Expect: "remembered-changes-only-with-the-handler"},
 			{Name: "hold-time-truncated-in-place", File: "internal/bgp/native/native.go",
 				Old: "\tret := &session{\n\t\tSessionParameters: sessionsParams,",
 				New: "\t*sessionsParams.HoldTime = sessionsParams.HoldTime.Truncate(time.Second)\n\tret := &session{\n\t\tSessionParameters: sessionsParams,", Expect: "store-through-field"},
@@ -72,6 +74,9 @@ func c18Roots(p *chk.Prog) []*chk.Fn {
 }
 
 func runC18(p *chk.Prog, r *chk.Report) {
+	// the per-Service advertisement copies the peer list (AD-BUILD, shared with C05): sorting or editing it in place rewrites the remembered configuration
+	c05Build(p, r)
+	fetchCheckedRule(p, r)
 	sortIdxRule(p, r, false)
 	c18Lists(p, r)
 	c18MapOrder(p, r)
@@ -521,6 +526,35 @@ func c18Compare(p *chk.Prog, r *chk.Report) {
 				w := g.BranchAlways(e, f.IsAssignPat("R.currentConfig", "nil"))
 				x.Check(c.name+":failed-config-not-remembered", posOf(w, f), !w.Found, "", "a configuration whose handling failed stays remembered as current: the retry finds it unchanged and never applies it")
 			}
+		}
+		// what is remembered changes only with what was handed to the handler: r.currentConfig is assigned the new
+		// configuration, or nil on the branch of the handler's SyncStateError answer - nothing else (a snapshot that was
+		// rejected before reaching the handler changed nothing in the component, so the remembered value stays)
+		errG := g.GPat(true, "T == C", chk.H("C", isObjNamed(f, ctrlPkg+".SyncStateError")))
+		for _, st := range g.Find(func(n ast.Node) bool {
+			as, ok := n.(*ast.AssignStmt)
+			if !ok || as.Tok != token.ASSIGN {
+				return false
+			}
+			for _, l := range as.Lhs {
+				if f.MatchNew("R.currentConfig", l) != nil {
+					return true
+				}
+			}
+			return false
+		}) {
+			as := st.Node.(*ast.AssignStmt)
+			okW := len(as.Lhs) == 1 && len(as.Rhs) == 1
+			if okW {
+				switch {
+				case cfg(as.Rhs[0]):
+				case f.IsNilLit(as.Rhs[0]):
+					okW = g.Dominated(st, errG)
+				default:
+					okW = false
+				}
+			}
+			x.Check(c.name+":remembered-changes-only-with-the-handler", st.Pos(), okW, "", "the remembered configuration is reset or replaced outside the handler's outcome (on a rejected snapshot, say): the next snapshot that equals what is applied is no longer recognised as unchanged and the handler - a full re-sync of all Services - runs for nothing")
 		}
 		if c.pool {
 			// the commit happens only after the handler was called
